@@ -293,9 +293,11 @@ def rule_abort_siblings(ctx):
     for k, fn in ab.items():
         ctx.analysed(fn)
         g, mf, res = an.get(fn)
-        tests = [n for n in g.stmt_nodes() if n.kind == "test"]
-        first = tests[0] if tests else None
-        on_session = first is not None and "isOpen" in norm.text(first.ast)
+        DROPS = ("self.transport.abortConnection", "self.transport.abort", "self.transport.loseConnection", "self.transport.close")
+        drops = [n for n in g.stmt_nodes() for c in node_calls(n) if norm.text(c.func) in DROPS]
+        # a drop that is reachable only under a condition on the session (isOpen() / self._session) cannot refuse a handshake
+        sess_conds = [[f for f in (mf.at(n) or ()) if "session" in str(f[1]).lower() or "isOpen" in str(f[1])] for n in drops]
+        on_session = not drops or all(sess_conds)
         # where is abort() called before a session can exist?
         early = []
         for (caller, call, _) in cg.callers(fn):
